@@ -93,9 +93,11 @@ def grep_forbidden():
 
 
 def load_obligations(pid):
-    with open(os.path.join(LEAN, 'obligations.json')) as f:
-        allob = json.load(f)
-    return allob.get(pid, [])
+    path = os.path.join(LEAN, 'obligations', pid + '.json')
+    if not os.path.exists(path):
+        return []
+    with open(path) as f:
+        return json.load(f)
 
 
 def audit(pid, obligations):
@@ -393,6 +395,15 @@ def main(argv):
         for a in aud:
             a['ok'] = False
             a['why'] = 'forbidden token in Lean sources: ' + forb[0]
+    if build_ok and tier == 'thorough' and replay is None and obligations:
+        mods = sorted({o.get('module', 'Proofs.' + pid) for o in obligations})
+        p = subprocess.run(['lake', 'env', 'leanchecker'] + mods, cwd=LEAN, stdout=subprocess.PIPE,
+                           stderr=subprocess.STDOUT, text=True)
+        ctx.note('leanchecker', {'modules': mods, 'rc': p.returncode, 'tail': p.stdout[-300:]})
+        if p.returncode != 0:
+            for a in aud:
+                a['ok'] = False
+                a['why'] = 'leanchecker rejected the compiled proofs: ' + p.stdout[-300:]
     broken = [a for a in aud if not a['ok']]
     if build_ok and not os.path.exists(DRIVER):
         print('INFRA: model driver missing after build')
